@@ -1431,6 +1431,11 @@ class CryptographyEngine(api.CryptographicEngine):
             hash_alg = self._encryption_hash_algorithms.get(
                 hash_algorithm, None
             )
+            if hash_alg is None:
+                raise exceptions.InvalidField(
+                    "Hashing algorithm '{0}' is not a supported signature "
+                    "hashing algorithm.".format(hash_algorithm)
+                )
         else:
             raise exceptions.InvalidField(
                 'For signing, either a digital signature algorithm or a hash'
